@@ -3,6 +3,7 @@ From Coq Require Import ZArith List Bool Lia.
 From V Require Import C19.Model C19.Laws.
 Import ListNotations.
 Open Scope Z_scope.
+Set Default Timeout 30.
 
 (* ---------- int64 ---------- *)
 Definition in64 (x : Z) : Prop := - two63 <= x < two63.
@@ -133,6 +134,13 @@ Proof.
   - change 1024 with (2 ^ 10). apply Z.pow_le_mono_r; lia.
 Qed.
 
+Lemma mul_mono_r lo c hi w : lo <= c <= hi -> 0 <= w -> lo * w <= c * w <= hi * w.
+Proof. intros [H1 H2] Hw. split; apply Z.mul_le_mono_nonneg_r; auto. Qed.
+Lemma mul_bound a b A B : 0 <= a <= A -> 0 <= b <= B -> 0 <= a * b <= A * B.
+Proof.
+  intros [? ?] [? ?]. split. apply Z.mul_nonneg_nonneg; auto. apply Z.mul_le_mono_nonneg; auto.
+Qed.
+
 Lemma wfold_inv : forall q (k : nat) ac am tw w lo1 hi1 lo2 hi2,
   0 <= lo1 -> hi1 <= max_alloc -> 0 <= lo2 -> hi2 <= max_alloc ->
   Forall (fun u => lo1 <= fst u <= hi1 /\ lo2 <= snd u <= hi2) q ->
@@ -154,18 +162,21 @@ Proof.
     assert (Htwb : 0 <= tw <= 511) by lia.
     cbn [fold_left]. unfold wstep at 2. unfold wstep_pure at 2.
     destruct u as [c m]. cbn [fst snd] in *.
-    assert (Hcw : lo1 * w <= c * w <= hi1 * w) by nia.
-    assert (Hmw : lo2 * w <= m * w <= hi2 * w) by nia.
-    assert (Hh1 : hi1 * (tw + w) <= max_alloc * 1023) by (unfold max_alloc in *; nia).
-    assert (Hh2 : hi2 * (tw + w) <= max_alloc * 1023) by (unfold max_alloc in *; nia).
-    assert (Hc0 : 0 <= c * w) by nia. assert (Hm0 : 0 <= m * w) by nia.
-    assert (Hcw' : c * w <= max_alloc * 512) by (unfold max_alloc in *; nia).
-    assert (Hmw' : m * w <= max_alloc * 512) by (unfold max_alloc in *; nia).
+    assert (Hw0 : 0 <= w) by lia.
+    pose proof (mul_mono_r lo1 c hi1 w Hu1 Hw0) as Hcw.
+    pose proof (mul_mono_r lo2 m hi2 w Hu2 Hw0) as Hmw.
+    assert (Hc0 : 0 <= c * w) by (apply Z.mul_nonneg_nonneg; lia).
+    assert (Hm0 : 0 <= m * w) by (apply Z.mul_nonneg_nonneg; lia).
+    pose proof (mul_bound hi1 (tw + w) max_alloc 1023 ltac:(lia) ltac:(lia)) as Hh1.
+    pose proof (mul_bound hi2 (tw + w) max_alloc 1023 ltac:(lia) ltac:(lia)) as Hh2.
+    pose proof (mul_bound c w max_alloc 512 ltac:(lia) ltac:(lia)) as Hcw'.
+    pose proof (mul_bound m w max_alloc 512 ltac:(lia) ltac:(lia)) as Hmw'.
     assert (E1 : mul64 c w = c * w) by (unfold mul64; apply wrap64_small; consts; lia).
     assert (E2 : mul64 m w = m * w) by (unfold mul64; apply wrap64_small; consts; lia).
-    assert (Hac' : lo1 * (tw + w) <= ac + c * w <= hi1 * (tw + w)) by nia.
-    assert (Ham' : lo2 * (tw + w) <= am + m * w <= hi2 * (tw + w)) by nia.
-    assert (Hl1 : 0 <= lo1 * (tw + w)) by nia. assert (Hl2 : 0 <= lo2 * (tw + w)) by nia.
+    assert (Hac' : lo1 * (tw + w) <= ac + c * w <= hi1 * (tw + w)) by (rewrite !Z.mul_add_distr_l; lia).
+    assert (Ham' : lo2 * (tw + w) <= am + m * w <= hi2 * (tw + w)) by (rewrite !Z.mul_add_distr_l; lia).
+    assert (Hl1 : 0 <= lo1 * (tw + w)) by (apply Z.mul_nonneg_nonneg; lia).
+    assert (Hl2 : 0 <= lo2 * (tw + w)) by (apply Z.mul_nonneg_nonneg; lia).
     assert (E3 : add64 ac (mul64 c w) = ac + c * w).
     { rewrite E1. unfold add64. apply wrap64_small. consts. lia. }
     assert (E4 : add64 am (mul64 m w) = am + m * w).
@@ -177,10 +188,8 @@ Proof.
     { rewrite Nat2Z.inj_succ, Z.pow_succ_r by lia. lia. }
     destruct (IH (S k) (ac + c * w) (am + m * w) (tw + w) (w * 2) lo1 hi1 lo2 hi2) as (ac' & am' & tw' & w' & F1 & F2 & G1 & G2 & G3 & G4);
       auto; try lia.
-    + replace (tw + w) with (w * 2 - 1) in Hac' by lia. replace (tw + w) with (w * 2 - 1) by lia. exact Hac'.
-    + replace (tw + w) with (w * 2 - 1) in Ham' by lia. replace (tw + w) with (w * 2 - 1) by lia. exact Ham'.
-    + exists ac', am', tw', w'. repeat split; auto; try lia.
-      rewrite G1. f_equal. lia.
+    exists ac', am', tw', w'. repeat split; auto; try lia.
+    rewrite G1. simpl length. f_equal. lia.
 Qed.
 
 (* the pure fold is the mathematical weighted sum of Laws.wsum *)
@@ -197,7 +206,7 @@ Proof.
     destruct (wsum (2 * w) (map fst q)) as [s1 t1] eqn:W1.
     destruct (wsum (2 * w) (map snd q)) as [s2 t2] eqn:W2.
     cbn [fst snd]. rewrite Nat2Z.inj_succ, Z.pow_succ_r by lia.
-    f_equal; try f_equal; try f_equal; lia.
+    f_equal; [f_equal; [f_equal|]|]; ring.
 Qed.
 
 Lemma wsum_weight_indep : forall (l1 l2 : list Z) w, length l1 = length l2 -> snd (wsum w l1) = snd (wsum w l2).
@@ -243,18 +252,16 @@ Qed.
 (* the report is at most the largest and at least the smallest recent sample *)
 Lemma lmax_ge l x : In x l -> x <= lmax l.
 Proof. induction l; simpl; intros H; [tauto|]. destruct H; [subst|apply IHl in H]; lia. Qed.
+Lemma fold_min_le_init y l : fold_right Z.min y l <= y.
+Proof. induction l; simpl; lia. Qed.
+Lemma fold_min_le_in y l x : In x l -> fold_right Z.min y l <= x.
+Proof. induction l; simpl; intros H; [tauto|]. destruct H; [subst|apply IHl in H]; lia. Qed.
 Lemma lmin_le l x : In x l -> lmin l <= x.
 Proof.
   destruct l as [|y l]; simpl; intros H; [tauto|].
-  revert y H; induction l as [|z l IH]; intros y H; simpl in *.
-  - destruct H; [lia|tauto].
-  - destruct H as [H|[H|H]].
-    + subst. pose proof (IH x (or_introl eq_refl)). lia.
-    + subst. lia.
-    + pose proof (IH y (or_intror H)). pose proof (IH z (or_introl eq_refl)).
-      assert (fold_right Z.min y l <= x).
-      { clear -H. induction l; simpl in *; [tauto|]. destruct H; [subst|apply IHl in H]; lia. }
-      lia.
+  destruct H as [H|H].
+  - subst. apply fold_min_le_init.
+  - now apply fold_min_le_in.
 Qed.
 Lemma lmin_nonneg l : Forall (fun x => 0 <= x) l -> 0 <= lmin l.
 Proof.
@@ -375,7 +382,7 @@ Section History.
       assert (Hlen : (1 <= length (c_queue s) <= 10)%nat).
       { split; auto. destruct (c_queue s); [discriminate|simpl; lia]. }
       destruct (report_bounds (c_queue s) 0 Bc 0 Bm Hlen) as (c & m & E' & R1 & R2 & _); auto; try lia.
-      rewrite E in E'. injection E' as E'. subst r. simpl.
+      rewrite E in E'. injection E' as E'. subst r. cbn [out_ok].
       apply mask_bounds; cbn [fst snd]; lia.
     - destruct ((k =? 0) || (k =? 1) || (k =? 2)); cbn [fst snd]; split; try exact I; split; auto.
   Qed.
@@ -409,3 +416,76 @@ Section History.
     lia.
   Qed.
 End History.
+
+(* ---------- the executable laws and the theorems speak about the same predicate ---------- *)
+Lemma floor_unique x got : got * 100 <= x -> x < (got + 1) * 100 -> got = x / 100.
+Proof. intros H1 H2. apply (Z.div_unique x 100 got (x - got * 100)); lia. Qed.
+
+Lemma law_sample1_sound alloc total usage ratio got :
+  law_sample1 alloc total usage ratio got = true ->
+  0 <= got /\ got * 100 <= alloc * ratio /\ got <= alloc /\
+  (usage <= total -> got = (total - usage) * ratio / 100) /\ (total < usage -> got = 0).
+Proof.
+  unfold law_sample1. intros H.
+  apply andb_true_iff in H as [H H4]. apply andb_true_iff in H as [H H3].
+  apply andb_true_iff in H as [H1 H2].
+  apply Z.leb_le in H1, H2, H3.
+  destruct (usage <=? total) eqn:E.
+  - apply andb_true_iff in H4 as [H4 H5]. apply Z.leb_le in H4, E. apply Z.ltb_lt in H5.
+    repeat split; auto; try lia. intros _. now apply floor_unique.
+  - apply Z.eqb_eq in H4. apply Z.leb_gt in E. repeat split; auto; lia.
+Qed.
+
+Lemma law_sample1_complete alloc total usage ratio got :
+  0 <= ratio -> 0 <= alloc -> total <= alloc -> 0 <= usage ->
+  0 <= got -> got <= alloc * ratio / 100 -> alloc * ratio / 100 <= alloc ->
+  (usage <= total -> got = (total - usage) * ratio / 100) -> (total < usage -> got = 0) ->
+  law_sample1 alloc total usage ratio got = true.
+Proof.
+  intros Hr Ha Ht Hu H0 H1 H2 H3 H4. unfold law_sample1.
+  assert (got * 100 <= alloc * ratio).
+  { pose proof (Z.mul_div_le (alloc * ratio) 100 ltac:(lia)). lia. }
+  apply andb_true_iff; split; [apply andb_true_iff; split; [apply andb_true_iff; split|]|];
+    try (apply Z.leb_le; lia).
+  destruct (usage <=? total) eqn:E.
+  - apply Z.leb_le in E. specialize (H3 E).
+    pose proof (Z.mul_div_le ((total - usage) * ratio) 100 ltac:(lia)).
+    pose proof (Z.mul_succ_div_gt ((total - usage) * ratio) 100 ltac:(lia)).
+    apply andb_true_iff; split; [apply Z.leb_le|apply Z.ltb_lt]; subst got; lia.
+  - apply Z.leb_gt in E. apply Z.eqb_eq. auto.
+Qed.
+
+(* the law accepts what the model computes, for every input *)
+Lemma law_sample_accepts_model ratio policy pods acpu amem ucpu umem :
+  law_sample ratio policy pods acpu amem ucpu umem
+    (sample_pair ratio acpu amem (guaranteed_cpu_request policy pods) ucpu umem) = true.
+Proof.
+  unfold law_sample.
+  destruct (ratio_ok ratio && pods_ok pods && zin 0 max_alloc acpu && zin 0 max_alloc amem &&
+            zin 0 max_amount ucpu && zin 0 max_amount umem) eqn:R; auto.
+  apply andb_true_iff in R as [R R6]. apply andb_true_iff in R as [R R5].
+  apply andb_true_iff in R as [R R4]. apply andb_true_iff in R as [R R3].
+  apply andb_true_iff in R as [R1 R2].
+  unfold ratio_ok, zin in R1, R3, R4, R5, R6.
+  apply andb_true_iff in R1 as [R1a R1b]. apply andb_true_iff in R3 as [R3a R3b].
+  apply andb_true_iff in R4 as [R4a R4b]. apply andb_true_iff in R5 as [R5a R5b].
+  apply andb_true_iff in R6 as [R6a R6b].
+  apply Z.leb_le in R1a, R1b, R3a, R3b, R4a, R4b, R5a, R5b, R6a, R6b.
+  assert (Hg : 0 <= guaranteed_cpu_request policy pods <= max_amount).
+  { unfold pods_ok in R2. apply andb_true_iff in R2 as [HP HL].
+    apply guaranteed_request_range.
+    - rewrite forallb_forall in HP.
+      apply Forall_forall. intros p Hp. specialize (HP p Hp). unfold zin in HP.
+      apply andb_true_iff in HP as [A B]. apply Z.leb_le in A, B. lia.
+    - apply Nat.leb_le in HL. exact HL. }
+  set (g := guaranteed_cpu_request policy pods) in *.
+  pose proof (sample_pair_bounds ratio acpu amem g ucpu umem ltac:(lia) ltac:(lia) ltac:(lia) Hg ltac:(lia) ltac:(lia))
+    as (S1 & S2 & S3 & S4 & S5 & S6).
+  assert (D1 : acpu * ratio / 100 <= acpu) by (apply Z.div_le_upper_bound; nia).
+  assert (D2 : amem * ratio / 100 <= amem) by (apply Z.div_le_upper_bound; nia).
+  apply andb_true_iff; split; [apply andb_true_iff; split|].
+  - apply Z.leb_le. lia.
+  - apply law_sample1_complete; try lia.
+  - apply law_sample1_complete; try lia.
+    + intros H. rewrite (S6 H). reflexivity.
+Qed.
